@@ -22,11 +22,11 @@ def _neighbourhood_shard(shard, n, tier, seed, budget_s):
             return
         rep["distinct"].add(h)
         if run and corpus_mod.safe_to_run(src):
-            r = w.exec(src, timeout=10, limit_ms=40, run_tests=True)
+            r = w.exec(src, timeout=10, limit_ms=40, run_tests=True, retry_hang=False)
             if r.get("outcome") in ("ok", "runtime_error"):
                 rep["ran"] += 1
         else:
-            r = w.exec(src, timeout=10, compile_only=True)
+            r = w.exec(src, timeout=10, compile_only=True, retry_hang=False)
         if r.get("outcome") in ("ok", "runtime_error", "compiled"):
             rep["compiled"] += 1
         _observe(rep, "exec", src, r, origin)
@@ -140,7 +140,7 @@ def _corelib_shard(shard, n, tier, seed, budget_s):
         src = pools.PRELUDE + "r = try\n  %s(%s)\ncatch e\n  'ERR'\nr\n" % (f, ", ".join(args))
         rep["evaluations"] += 1
         rep["cells"] += 1
-        r = w.exec(src, timeout=3, limit_ms=500)
+        r = w.exec(src, timeout=3, limit_ms=500, retry_hang=False)
         if r.get("outcome") in ("ok", "runtime_error"):
             rep["ran"] += 1
             if r.get("result") != "ERR":
@@ -221,7 +221,7 @@ def _reentrancy_shard(shard, n, tier, seed, budget_s):
             continue
         src = REENTRANT + "r = try\n" + "\n".join("  " + l for l in body.split("\n")) + "\ncatch e\n  'ERR'\nr\n"
         rep["evaluations"] += 1
-        r = w.exec(src, timeout=5, limit_ms=500)
+        r = w.exec(src, timeout=5, limit_ms=500, retry_hang=False)
         if r.get("outcome") in ("ok", "runtime_error"):
             rep["ran"] += 1
             rep["distinct"].add(body)
@@ -318,7 +318,7 @@ def _operators_shard(shard, n, tier, seed, budget_s, asan=False):
             rep["inconclusive_budget"] = True
             break
         src = pools.PRELUDE + "try\n" + "\n".join("  " + l for l in body.split("\n")) + "\ncatch _\n  null\n"
-        r = w.exec(src, timeout=20, limit_ms=2000)
+        r = w.exec(src, timeout=20, limit_ms=2000, retry_hang=False)
         rep["evaluations"] += 1; rep["cells"] += 1
         rep["distinct"].add(sha(body))
         if r.get("outcome") not in ("compile_error",):
@@ -382,9 +382,9 @@ def _noise_shard(shard, n, tier, seed, budget_s):
             continue
         rep["distinct"].add(h)
         if corpus_mod.safe_to_run(src):
-            r = w.exec(src, timeout=10, limit_ms=40, run_tests=True)
+            r = w.exec(src, timeout=10, limit_ms=40, run_tests=True, retry_hang=False)
         else:
-            r = w.exec(src, timeout=10, compile_only=True)
+            r = w.exec(src, timeout=10, compile_only=True, retry_hang=False)
         if r.get("outcome") in ("ok", "runtime_error", "compiled"):
             rep["compiled"] += 1
         _observe(rep, "exec", src, r, "noise")
@@ -429,7 +429,7 @@ def run(tier, seed):
                 r = {}
             _observe(wrep, "format", wit["src"], r, "witness " + f["id"])
         else:
-            r = w.exec(wit["src"], timeout=10, limit_ms=500)
+            r = w.exec(wit["src"], timeout=10, limit_ms=500, retry_hang=False)
             _observe(wrep, "exec", wit["src"], r, "witness " + f["id"])
     w.close()
     chk.merge_shard(wrep)
